@@ -28,9 +28,17 @@ From Verif Require Import Common C11_Model C11_Spec C11_Hm C11_HmSpec.
      which calls the real hook.Manager.HandleScheduleEvent; the tasks it returns are observed
      ([h_tasks]).  The controllers' own answers ([o_fire]) are asked as well, through
      HookController.CanHandleScheduleEvent / HandleScheduleEvent. *)
+(* COp carries, besides the observations of the operations, the ids the REAL config loader gave
+   the bindings, per hook and binding ([loaded]): the harness numbers the id STRINGS found in
+   the loaded configurations - a string gets the number the model gives the first (hook,
+   binding) that carries it (C11_Hm.hm_load) - and uses the same numbering for every id it sees
+   in the manager's Entries; the strings themselves go to the schedule manager untouched (the
+   hooks' own controllers pass them).  The input's hooks are the configurations as written:
+   the model loads them itself ([load_input], [run_op]); the predicate is evaluated on the
+   loaded case. *)
 Inductive case :=
 | CCtl (c : input * list obs)
-| COp (c : input * list hobs).
+| COp (c : input * (list (list N) * list hobs)).
 
 (* short constructors for the generated files *)
 Definition Bd := mkB.
@@ -81,20 +89,21 @@ Definition hobs_eqb (a b : hobs) : bool :=
   && (negb (Nat.leb (length (o_recv (h_obs a))) 1)
       || list_eqb N.eqb (map st_hook (h_tasks a)) (map st_hook (h_tasks b))).
 
-Definition model_obs (c : case) : list obs + list hobs :=
+Definition model_obs (c : case) : list obs + (list (list N) * list hobs) :=
   match c with
   | CCtl c => inl (run_model (fst c))
-  | COp c => inr (run_hm (fst c))
+  | COp c => inr (loaded_ids (fst c), run_op (fst c))
   end.
 Definition agrees (c : case) : bool :=
   match c with
   | CCtl c => list_eqb obs_eqb (run_model (fst c)) (snd c)
-  | COp c => list_eqb hobs_eqb (run_hm (fst c)) (snd c)
+  | COp c => list_eqb (list_eqb N.eqb) (loaded_ids (fst c)) (fst (snd c))
+             && list_eqb hobs_eqb (run_op (fst c)) (snd (snd c))
   end.
 
 Definition mismatches (cs : list case) : list N := indices_where (fun c => negb (agrees c)) cs.
 Definition spec_violations (cs : list case) : list N :=
   indices_where (fun c => negb (match c with
                                 | CCtl c => P (fst c) (snd c)
-                                | COp c => P_hm (fst c) (snd c)
+                                | COp c => P_op (load_input (fst c)) (snd (snd c))
                                 end)) cs.
